@@ -193,6 +193,27 @@ fn %(p)s_proof_len_matches_prove<F, S>(h: &%(ty)s<F, S>)
     assert(declared == from_prove);
 }
 ''' % dict(ty=ty, p=calls_ok), ty + '-lemma')
+    # ------------------------------------------------------------------ Count (constants): Mul gadget, arity 2, degree 2, 1 call
+    u.raw('pub struct Count<F> { phantom: PhantomData<F> }', 'count-struct')
+    CI = 'impl<F> Count<F>'
+    CF = ['impl<F: NttFriendlyFieldElement> Flp for Count<F>']
+    u.item(T, CF + ['fn proof_len'], ret='r', impl_header=CI, sig='ensures\n r == 5,')
+    u.item(T, CF + ['fn verifier_len'], ret='r', impl_header=CI, sig='ensures\n r == 4,')
+    u.item(T, CF + ['fn prove_rand_len'], ret='r', impl_header=CI, sig='ensures\n r == 2,')
+    u.item(T, CF + ['fn input_len'], ret='r', impl_header=CI, sig='ensures\n r == 1,')
+    u.item(T, CF + ['fn joint_rand_len'], ret='r', impl_header=CI, sig='ensures\n r == 0,')
+    u.raw('''
+// Count: the declared constants are arity + gadget_poly_len(degree, wire_poly_len(calls)) = 2 + gadget_poly_len(2, wire_poly_len(1)) etc.
+fn count_lens_match_prove<F>(c: &Count<F>) {
+    proof { reveal_with_fuel(spec_npo2, 4); }
+    let w = wire_poly_len(1);
+    let g = gadget_poly_len(2, w);
+    let (pl, vl, prl) = (c.proof_len(), c.verifier_len(), c.prove_rand_len());
+    assert(pl == 2 + g);
+    assert(vl == 1 + (2 + 1));
+    assert(prl == 2);
+}
+''', 'count-lemma')
     u.struct_item(T, ['pub struct Sum'], rewrites=STRW + [(r'\blast_weight_field: F\b', 'last_weight_field: PhantomData<F>', 1), (r'Vec<F>', 'Vec<u128>', '*')])
     u.item(T, ['impl<F: NttFriendlyFieldElement> Flp for Sum<F>', 'fn proof_len'], ret='r', impl_header='impl<F> Sum<F>', sig='''
 requires
